@@ -718,6 +718,19 @@ impl TypeChecker {
                             }
                         }
 
+                        // The discriminant of an enum is a single byte
+                        if variants.len() > 256 {
+                            return Err(self.error_simple(
+                                format!(
+                                    "enum `{ident}` has {} variants, \
+                                    but an enum can have at most 256",
+                                    variants.len()
+                                ),
+                                "too many variants",
+                                ident.id,
+                            ));
+                        }
+
                         let mut evaluated_variants = Vec::new();
 
                         for v in &**variants {
